@@ -238,6 +238,10 @@ class EdgeLandmark(BaseEdge):
             Whether the two edges are equal
 
         """
+        # An edge of a different type (which need not have an offset) is never equal to a landmark edge
+        if not isinstance(other, EdgeLandmark):
+            return False
+
         if not type(self.offset) is type(other.offset):  # noqa
             return False
 
